@@ -286,7 +286,24 @@ impl<T: Subject> Subject for VecDeque<T> {
 		Shape::Seq(SeqKind::Deque, b(T::shape()))
 	}
 	fn from_value(v: &Value) -> Self {
-		seq_from::<T>(v).into()
+		// Sharp driver: the deque is built so that its ring buffer wraps (the first half is pushed at
+		// the front and lands at the physical end of the buffer). Same logical content; an encoder
+		// that mishandles the two slices shows in every check that uses a deque.
+		let items = seq_from::<T>(v);
+		let h = items.len() / 2;
+		let mut d = VecDeque::with_capacity(items.len());
+		let mut head: Vec<T> = Vec::with_capacity(h);
+		for (i, x) in items.into_iter().enumerate() {
+			if i < h {
+				head.push(x);
+			} else {
+				d.push_back(x);
+			}
+		}
+		for x in head.into_iter().rev() {
+			d.push_front(x);
+		}
+		d
 	}
 	fn to_value(&self) -> Value {
 		seq_to(self.iter())
